@@ -18,8 +18,8 @@ ALIAS_ENTRIES = [
 _CACHE = {}
 
 
-def dataflow(program, tier="quick") -> DataflowRules:
-    depth = 4 if tier == "quick" else 6
+def dataflow(program, tier="quick", depth=None) -> DataflowRules:
+    depth = depth or (4 if tier == "quick" else 6)
     k = (id(program), depth)
     if k not in _CACHE:
         R = DataflowRules(program, max_depth=depth)
